@@ -168,7 +168,7 @@ fn fault_case(rec: &mut Rec, ctx: &Ctx, idx: u64, rng: &mut ChaCha20Rng) {
         };
         let what = format!("{}:=value@{}", fname, pname);
         rec.case(&(fname, pname, "value", v, t));
-        judge(rec, &coll, &a.m, pos == 0 && value_changed, &what, star_level, || {
+        judge(rec, &coll, &a.m, pos == 0 && value_changed && ml + rl >= 16, &what, star_level, || {
           json!({"kind":"field-value-fault","field":fname,"new_value":v,"old_value":cur,"share_position":pos,"t":t,
                  "collection_hex": coll.iter().map(|b| hex(b)).collect::<Vec<_>>(), "expected_message": hex(&a.m)})
         });
@@ -192,7 +192,10 @@ fn fault_case(rec: &mut Rec, ctx: &Ctx, idx: u64, rng: &mut ChaCha20Rng) {
           // with threshold 1 the polynomial is constant: (x', y) is another
           // valid share of the same sharing, not an alteration of it
           let still_valid_share = t == 1 && fname == "x";
-          let must_fail = pos == 0 && value_changed && !still_valid_share;
+          // soundness rule 2: with fewer than 16 authenticated bytes (|M|+|R|) a wrong key
+          // decrypts to the same (M, R) with non-negligible probability (2^-16 for 1+1
+          // bytes), and the MAC then verifies legitimately: not asserted against chance
+          let must_fail = pos == 0 && value_changed && !still_valid_share && ml + rl >= 16;
           let what = format!("{}@{}", fname, pname);
           rec.case(&(fname, pname, *fault, off - range.start, t));
           judge(rec, &coll, &a.m, must_fail, &what, star_level, || {
